@@ -44,7 +44,12 @@ Record case := CS {
   c_final : dump;
   (* C07 only: the same script against a server without ACL *)
   c_obs2 : list oobs;
-  c_status2 : status }.
+  c_status2 : status;
+  (* fault injected by the stream and actually hit: 0 none; k > 0: the k-th Send
+     returned an error (it is not recorded); [c_fault_recv]: a trigger's Recv
+     returned an error other than EOF *)
+  c_fault : N;
+  c_fault_recv : bool }.
 
 (** * multisets and canonical groups *)
 
@@ -197,7 +202,35 @@ Fixpoint model_from (tbl : list (string * string * bool)) (a : aclcfg) (rq : opt
   | _, _ => ([(i, 1%N)], st)            (* not one observation per step *)
   end.
 
-Definition model_check (a : aclcfg) (cs : case) (obs : list oobs) (stt : status) (fin : option dump)
+(** a run in which the stream failed: the RPC must end with the stream's error
+    (a plain Go error: [SUnknown]); everything recorded before is part of what
+    the fault-free model sends in the same step; after a failed k-th Send
+    exactly k-1 responses were recorded.  Cache operations are unaffected. *)
+Fixpoint fault_from (tbl : list (string * string * bool)) (a : aclcfg) (rq : option request)
+  (i : nat) (st : rstate) (ops : list step) (obs : list oobs) : list (nat * N) :=
+  match ops, obs with
+  | [], [] => []
+  | s :: ops', ob :: obs' =>
+      let tbl' := match s with SAcl t => t | _ => tbl end in
+      let '(st', g, cr) := run_step (allow_of tbl) a rq st s in
+      (if forallb (fun r => in_resps r g) (expand (ob_group ob)) then [] else [(i, 1%N)])
+      ++ (if cres_eqb (ob_cres ob) cr then [] else [(i, 1%N)])
+      ++ fault_from tbl' a rq (S i) st' ops' obs'
+  | _, _ => [(i, 1%N)]
+  end.
+
+Definition fault_check (a : aclcfg) (cs : case) (obs : list oobs) (stt : status) : list (nat * N) :=
+  let n := List.length (c_ops cs) in
+  fault_from (acl_table cs) a (c_req cs) 0 (RS (empty_cache (c_targets cs)) PBefore)
+             (c_ops cs) obs
+  ++ (if status_eqb stt SUnknown then [] else [(n, 1%N)])
+  ++ (if N.eqb (c_fault cs) 0 then []
+      else if N.eqb (N.of_nat (List.length (flat_map (fun ob => ob_group ob) obs)) + 1) (c_fault cs)
+           then [] else [(n, 1%N)]).
+
+Definition faulty (cs : case) : bool := negb (N.eqb (c_fault cs) 0) || c_fault_recv cs.
+
+Definition model_check_normal (a : aclcfg) (cs : case) (obs : list oobs) (stt : status) (fin : option dump)
   : list (nat * N) :=
   let r := model_from (acl_table cs) a (c_req cs) 0
                       (RS (empty_cache (c_targets cs)) PBefore) None (c_ops cs) obs in
@@ -208,6 +241,10 @@ Definition model_check (a : aclcfg) (cs : case) (obs : list oobs) (stt : status)
      | Some d => if mset_eqb dentry_eqb d (dump_cache (rs_cache (snd r))) then [] else [(n, 1%N)]
      | None => []
      end.
+
+Definition model_check (a : aclcfg) (cs : case) (obs : list oobs) (stt : status) (fin : option dump)
+  : list (nat * N) :=
+  if faulty cs then fault_check a cs obs stt else model_check_normal a cs obs stt fin.
 
 (** * the specification side of C05 *)
 
@@ -408,8 +445,11 @@ Definition kp_c05 (cs : case) : list (nat * N) :=
   | _, _ => []
   end.
 
+(** the property speaks about calls whose stream works: a case in which the
+    stream itself failed is judged by the correspondence only *)
 Definition check_case (cs : case) : list (nat * N) :=
-  model_check (acfg cs) cs (c_obs cs) (c_status cs) (Some (c_final cs)) ++ kp_c05 cs.
+  model_check (acfg cs) cs (c_obs cs) (c_status cs) (Some (c_final cs))
+  ++ (if faulty cs then [] else kp_c05 cs).
 
 Fixpoint check_all_from (i : nat) (cs : list case) : list (nat * nat * N) :=
   match cs with
